@@ -250,6 +250,7 @@ func runC07(cases string, res *Result) {
 	c07LongValues(res, eng)
 	c07UnderEngineSettings(res)
 	c07PartialsRegisteredAgain(res)
+	c07AfterRescues(res)
 	res.Exhaustive = []string{"exhaustive1", "exhaustive2"}
 }
 
